@@ -56,6 +56,8 @@ class Submodule(Module):
     def resolve_inherit(self, obj_tree, inherit_version):
         if not self.ancestor_name:
             return
+        # The ancestor found earlier may have been deleted since
+        self.ancestor_obj = None
         if self.ancestor_name in obj_tree:
             self.ancestor_obj = obj_tree[self.ancestor_name][0]
 
